@@ -1118,8 +1118,15 @@ class StrategyBase(Node):
 
         # Adjust prices for bid/offer paid if needed
         if self._bidoffer_set:
-            bidoffer = pd.DataFrame({x.name: x.bidoffers_paid for x in self.securities}).unstack()
-            prc += bidoffer / trades
+            # a ticker may be held by several sub-strategies: aggregate the
+            # bid/offer paid per ticker, like the positions above
+            bidoffer = pd.DataFrame()
+            for x in self.securities:
+                if x.name in bidoffer.columns:
+                    bidoffer[x.name] += x.bidoffers_paid
+                else:
+                    bidoffer[x.name] = x.bidoffers_paid
+            prc += bidoffer.unstack() / trades
 
         res = pd.DataFrame({"price": prc, "quantity": trades}).dropna(subset=["quantity"])
 
